@@ -34,6 +34,17 @@ CLAIMS = {
    note=NOTE + "C17: np.ma.median / astropy biweight_scale abstracted as arbitrary functions of the gathered values; photutils outside the model.",
    technique="Lean 4 theorems over list/slice model (all shapes, masks, statistics) + gathered-set correspondence with the real estimate_sky",
    design="7/C17"),
+ "C18": dict(
+   text=("Proof, full for the decision logic: construction outcome is modelled as a total function of (data, rms, PSF, mask shapes; "
+         "negative-rms flag; renderer class) parameterised by structural facts regenerated from the source (how the PSF-size tests compare "
+         "shapes, orientation of the hybrid renderer's PSF grid). Proved for all shapes: accepted ⇔ consistent; each inconsistency raises its "
+         "documented exception; no other outcome; stored mask = inverted user mask; unknown profile/sky types refused. `repo_facts` is the "
+         "obligation that the current source has the facts the theorems need (it fails to build on lexicographic comparison). Tie: real "
+         "FitSingle/FitMulti/renderer constructors over the property's shape grid (±1 per axis, numpy/jax, bool/int/float masks) compared "
+         "with the model outcome exactly; oracle checks value-for-value float32 storage."),
+   note=NOTE + "C18: outcomes assumed to depend on inputs only through shapes/negativity/renderer class; float32 storage checked by the oracle bit-for-bit, not modelled; warnings not modelled.",
+   technique="Lean 4 decision-logic theorems over all shapes + regenerated structural facts as proof obligations + constructor-outcome correspondence",
+   design="7/C18"),
 }
 
 checks, na = [], []
